@@ -1,11 +1,208 @@
-(* C15 — stored and bulk-loaded data come back bit-identical. *)
-From Coq Require Import List ZArith.
-From EV Require Import PySlice Store StoreProofs.
+(* C15 — stored and bulk-loaded data come back bit-identical.
+   Property theorems only; proofs live in Proof/StoreProofs.v, StoreLoadProofs.v, StoreRaProofs.v.
+   Model (Model/Store.v): an HDF5 file is a finite list of named nodes; array items are carried as
+   their bit patterns (integers), so equality below is bit identity.  Trusted, not proved: PyTables/HDF5
+   returns the bytes it was given and lists nodes sorted by name; multiprocessing's shared buffer;
+   mdtraj.  The claim is therefore "proof, partial". *)
+From Coq Require Import List ZArith Permutation.
+From EV Require Import PySlice Store StoreProofs StoreLoadProofs StoreRaProofs.
 Import ListNotations.
 Open Scope nat_scope.
 
-Example c15_example :
-  save_load [97] (Ra 1 [] [[[1%Z];[2%Z];[3%Z]];[[4%Z];[5%Z]];[[6%Z]]]) None 2
-  = Some (LRa 1 [] [2; 1; 1] [[1%Z]; [3%Z]; [4%Z]; [6%Z]]).
-Proof. vm_compute. reflexivity. Qed.
-Print Assumptions c15_example.
+(* --- "row order relies on zero-padded key names sorting correctly for every row count" --- *)
+(* keys_sorted: the names save gives to rows i < j < n compare (as Python strings) like i and j,
+   for EVERY n: width len(str(n))+1, decimal digits, zfill. *)
+Theorem c15_keys_sorted : forall tag n i j,
+  i < j -> j < n -> lex_ltb (key tag (n_zeros n) i) (key tag (n_zeros n) j) = true.
+Proof. exact keys_lt. Qed.
+Print Assumptions c15_keys_sorted.
+
+(* equal-width digit strings order exactly like the numbers they denote *)
+Theorem c15_equal_width_decimals_order_like_numbers : forall a b,
+  length a = length b -> Forall (fun d => d < 10) a -> Forall (fun d => d < 10) b ->
+  (lex_ltb a b = true <-> val a < val b).
+Proof. exact lex_ltb_val. Qed.
+Print Assumptions c15_equal_width_decimals_order_like_numbers.
+
+(* str(n) really is the decimal numeral of n *)
+Theorem c15_decimal_numeral : forall n, val (digits n) = n /\ Forall (fun d => d < 10) (digits n).
+Proof. exact (fun n => conj (digits_val n) (digits_lt10 n)). Qed.
+Print Assumptions c15_decimal_numeral.
+
+(* the sorted listing of the node names is the row order, whatever order the nodes are held in *)
+Theorem c15_listing_is_row_order : forall tag n l,
+  Permutation l (map (key tag (n_zeros n)) (seq 0 n)) ->
+  sort_keys l = map (key tag (n_zeros n)) (seq 0 n).
+Proof. exact listing_any_creation_order. Qed.
+Print Assumptions c15_listing_is_row_order.
+
+(* --- "saving ... and loading it back returns the same values, element type, row order and row
+   lengths for any number of rows" --- *)
+Theorem c15_roundtrip : forall tag dt tail rows f,
+  save tag (Ra dt tail rows) = Some f -> rows <> [] ->
+  loaded_rows (load f None 1) = Some rows /\ loaded_meta (load f None 1) = Some (dt, tail).
+Proof. exact roundtrip_identity. Qed.
+Print Assumptions c15_roundtrip.
+
+(* the same without the row canonicalisation: two or more rows come back as a RaggedArray whose
+   lengths are the row lengths and whose flat data is the concatenation of the rows *)
+Theorem c15_roundtrip_ragged : forall tag dt tail rows f stride,
+  save tag (Ra dt tail rows) = Some f -> (1 <= stride)%Z -> 2 <= length rows ->
+  load f None stride
+  = LRa dt tail (map (fun r => length (strided stride r)) rows) (concat (map (strided stride) rows)).
+Proof. exact roundtrip_many. Qed.
+Print Assumptions c15_roundtrip_ragged.
+
+(* rectangular ndarray: one node, comes back as an ndarray (with the repaired stride, D10) *)
+Theorem c15_roundtrip_ndarray : forall tag dt tail elems f stride,
+  save tag (Nd dt tail elems) = Some f -> (1 <= stride)%Z ->
+  load f None stride = LNd dt tail (strided stride elems).
+Proof. exact roundtrip_ndarray. Qed.
+Print Assumptions c15_roundtrip_ndarray.
+
+(* the guard is exactly "no zero-length row / zero dimension" (PyTables refuses those) *)
+Theorem c15_save_defined : forall tag dt tail rows,
+  (forall r, In r rows -> r <> []) -> (forall d, In d tail -> d <> 0) ->
+  exists f, save tag (Ra dt tail rows) = Some f.
+Proof. exact save_ra_defined. Qed.
+Print Assumptions c15_save_defined.
+
+(* --- "loading with a stride or with a subset of rows equals slicing the full load" --- *)
+(* stride_len: |r[::s]| = ceil(|r|/s), for every length / stride residue *)
+Theorem c15_stride_len : forall (s : Z) (r : list elem),
+  (1 <= s)%Z -> length (strided s r) = ceil_len (length r) s.
+Proof. exact (@strided_length elem). Qed.
+Print Assumptions c15_stride_len.
+
+Theorem c15_stride_picks_every_sth : forall (d : elem) (s : Z) (r : list elem),
+  (1 <= s)%Z ->
+  strided s r = map (fun k => nth (Z.to_nat (Z.of_nat k * s)) r d) (seq 0 (ceil_len (length r) s)).
+Proof. exact (@strided_spec elem). Qed.
+Print Assumptions c15_stride_picks_every_sth.
+
+Theorem c15_load_stride_eq_slice : forall tag dt tail rows f stride full,
+  save tag (Ra dt tail rows) = Some f -> (1 <= stride)%Z -> rows <> [] ->
+  loaded_rows (load f None 1) = Some full ->
+  loaded_rows (load f None stride) = Some (map (strided stride) full).
+Proof. exact load_stride_eq_slice. Qed.
+Print Assumptions c15_load_stride_eq_slice.
+
+(* the lengths the loader computes up front, (len + stride - 1) // stride, are the lengths of the
+   slices it then reads *)
+Theorem c15_reported_lengths_are_ceil : forall tag dt tail rows f stride,
+  save tag (Ra dt tail rows) = Some f -> (1 <= stride)%Z -> 2 <= length rows ->
+  exists data, load f None stride = LRa dt tail (map (fun r => ceil_len (length r) stride) rows) data.
+Proof. exact lengths_are_ceil. Qed.
+Print Assumptions c15_reported_lengths_are_ceil.
+
+(* load_keys_subset: any non-empty list of row numbers (any order, repeats allowed) *)
+Theorem c15_load_keys_subset : forall tag dt tail rows f idxs stride,
+  save tag (Ra dt tail rows) = Some f -> (1 <= stride)%Z -> idxs <> [] ->
+  (forall i, In i idxs -> i < length rows) ->
+  let l := load f (Some (map (key tag (n_zeros (length rows))) idxs)) stride in
+  loaded_rows l = Some (map (fun i => strided stride (nth i rows [])) idxs)
+  /\ loaded_meta l = Some (dt, tail).
+Proof. exact load_subset_rows. Qed.
+Print Assumptions c15_load_keys_subset.
+
+(* --- "each worker writing a disjoint, correctly offset window of a shared buffer" --- *)
+(* windows_disjoint_cover: in file order the cells written are 0,1,...,total-1, each exactly once *)
+Theorem c15_windows_disjoint_cover : forall (blocks : list (list elem)),
+  map fst (flat_map job_writes (combine (offsets (map (@length elem) blocks)) blocks))
+  = seq 0 (sum_nat (map (@length elem) blocks)).
+Proof. exact windows_cover. Qed.
+Print Assumptions c15_windows_disjoint_cover.
+
+Theorem c15_windows_disjoint_intervals : forall lengths i j,
+  i < j -> j < length lengths ->
+  nth i (offsets lengths) 0 + nth i lengths 0 <= nth j (offsets lengths) 0
+  /\ nth j (offsets lengths) 0 + nth j lengths 0 <= sum_nat lengths.
+Proof. exact windows_disjoint. Qed.
+Print Assumptions c15_windows_disjoint_intervals.
+
+(* --- "independent of the number of worker processes and of which worker finishes first" --- *)
+(* concat_order_indep: whole jobs completing in any order *)
+Theorem c15_concat_order_indep : forall (blocks : list (list elem)) (z : elem) sched,
+  Permutation sched (seq 0 (length blocks)) ->
+  run_jobs (pick_jobs (combine (offsets (map (@length elem) blocks)) blocks) sched)
+           (repeat z (sum_nat (map (@length elem) blocks)))
+  = Some (concat blocks).
+Proof. exact concat_order_indep. Qed.
+Print Assumptions c15_concat_order_indep.
+
+(* ... and the single-item writes of all workers landing in any interleaving whatsoever (this
+   covers every number of processes and every assignment of jobs to processes) *)
+Theorem c15_concat_interleaving_indep : forall (blocks : list (list elem)) (z : elem) ws,
+  Permutation ws (flat_map job_writes (combine (offsets (map (@length elem) blocks)) blocks)) ->
+  apply_writes ws (repeat z (sum_nat (map (@length elem) blocks))) = concat blocks.
+Proof. exact concat_interleaving_indep. Qed.
+Print Assumptions c15_concat_interleaving_indep.
+
+(* --- "returns exactly the concatenation, in file order, of the individually loaded (strided,
+   atom-selected) trajectories together with their lengths" --- *)
+(* the individually loaded trajectories are inputs (mdtraj is trusted); the one thing asked of
+   them is that md.load returns as many frames as sound_trajectory announces *)
+Theorem c15_load_as_concatenated : forall sched hint zero files,
+  Permutation sched (seq 0 (length files)) ->
+  (forall t, In t files -> length (t_loaded t) = sounded t) ->
+  (hint = None \/ hint = Some (map (fun t => length (t_loaded t)) files)) ->
+  load_as_concatenated sched hint zero files
+  = inr (map (fun t => length (t_loaded t)) files, concat (map t_loaded files)).
+Proof. exact lac_correct_gen. Qed.
+Print Assumptions c15_load_as_concatenated.
+
+(* reading md.load(stride=s) as "frames on disk sliced [::s]" discharges that hypothesis *)
+Theorem c15_load_as_concatenated_strided : forall sched zero (disks : list (list elem * Z)),
+  Permutation sched (seq 0 (length disks)) ->
+  (forall d, In d disks -> (1 <= snd d)%Z) ->
+  load_as_concatenated sched None zero (map (fun d => trj_of_disk (fst d) (snd d)) disks)
+  = inr (map (fun d => ceil_len (length (fst d)) (snd d)) disks,
+         concat (map (fun d => strided (snd d) (fst d)) disks)).
+Proof. exact lac_correct_disk. Qed.
+Print Assumptions c15_load_as_concatenated_strided.
+
+(* --- striped loaders (enspara/mpi/io.py), after the repair of D17 --- *)
+(* any rank / world size: the rank's files strided and concatenated; global lengths strided *)
+Theorem c15_npy_striped : forall rank size dt tail (arrays : list (list elem)) stride,
+  (1 <= stride)%Z -> stripe rank size arrays <> [] -> arrays <> [] ->
+  load_npy_as_striped rank size (map (fun a => (dt, tail, a)) arrays) stride
+  = inr (map (fun a => length (strided stride a)) arrays,
+         concat (map (strided stride) (stripe rank size arrays))).
+Proof. exact npy_striped_correct. Qed.
+Print Assumptions c15_npy_striped.
+
+(* world size 1 (the only one executable in the sandbox) *)
+Theorem c15_h5_striped_world1 : forall tag dt tail rows f stride,
+  save tag (Ra dt tail rows) = Some f -> (1 <= stride)%Z -> 2 <= length rows ->
+  load_h5_as_striped 0 1 f stride
+  = inr (map (fun r => length (strided stride r)) rows, concat (map (strided stride) rows)).
+Proof. exact h5_striped_world1. Qed.
+Print Assumptions c15_h5_striped_world1.
+
+(* --- non-vacuity --- *)
+(* 12 rows (two-digit row numbers, width 3): saved, listed, loaded with stride 2 and as a subset *)
+Definition ex_rows : list (list elem) :=
+  map (fun i => map (fun k => [Z.of_nat (10 * i + k)]) (seq 0 (1 + i mod 3))) (seq 0 12).
+
+Example c15_example_roundtrip :
+  exists f, save [97; 114; 114] (Ra 3 [] ex_rows) = Some f
+  /\ map nkey (firstn 2 f) = [[97; 114; 114; 95; 48; 48; 48]; [97; 114; 114; 95; 48; 48; 49]]
+  /\ loaded_rows (load f None 1) = Some ex_rows
+  /\ loaded_rows (load f None 2) = Some (map (strided 2) ex_rows)
+  /\ loaded_rows (load f (Some (map (key [97; 114; 114] 3) [11; 2])) 2)
+     = Some [[[110%Z]; [112%Z]]; [[20%Z]; [22%Z]]].
+Proof. eexists. vm_compute. repeat split; reflexivity. Qed.
+Print Assumptions c15_example_roundtrip.
+
+(* three files, lengths 3/1/2, workers finishing in the order 2,0,1 *)
+Example c15_example_parallel :
+  load_as_concatenated [2; 0; 1] None [0%Z]
+    [mkTrj 5 2 false [[1%Z]; [2%Z]; [3%Z]]; mkTrj 5 1 true [[9%Z]]; mkTrj 2 1 false [[7%Z]; [8%Z]]]
+  = inr ([3; 1; 2], [[1%Z]; [2%Z]; [3%Z]; [9%Z]; [7%Z]; [8%Z]])
+  /\ Permutation [2; 0; 1] (seq 0 3).
+Proof.
+  split; [vm_compute; reflexivity|].
+  cbn [seq]. apply Permutation_sym. eapply perm_trans; [apply perm_skip, perm_swap|].
+  eapply perm_trans; [apply perm_swap|]. apply perm_skip. apply Permutation_refl.
+Qed.
+Print Assumptions c15_example_parallel.
